@@ -78,8 +78,12 @@ func genName(p *picker) nameSpec {
 	tail := p.str("tail", tails)
 	n := 1 + p.pick("ups", maxChain)
 	switch p.pick("nameClass", 16) {
-	case 0, 1, 2, 3: // plain ../ chain; the most direct form gets the largest share
+	case 0, 1, 2: // plain ../ chain; the most direct form gets the largest share
 		return mkName("chain", strings.Repeat("../", n)+tail)
+	case 3: // the chain behind a root or a no-op element: path.Clean("/../../x") = "/x" drops the climb that the
+		// operating system still performs when the raw name is appended to a directory
+		pre := p.str("rootPre", []string{"/", "//", "/./", "./", "././", "/x/../", "./x/../"})
+		return mkName("chain_rooted", pre+strings.Repeat("../", n)+tail)
 	case 4: // encoded separators / dots in the name itself
 		up := p.str("encUp", []string{"..%2f", "..%2F", "%2e%2e%2f", "%2e%2e/", "..%252f", "..%c0%af", ".%2e/"})
 		return mkName("chain_enc", strings.Repeat(up, n)+tail)
